@@ -22,7 +22,7 @@ def parse_act(tok):
         return ("wake", mode, rev, ids(p[2]) if len(p) == 3 else [], None)
     if k == "detach" and len(p) == 3:
         return ("wake", "a" if p[1] == "a" else ("p" if p[1] == "p" else "d"), False, ids(p[2]), None)
-    if len(p) == 1 and k in ("parkp", "hop", "hopc"):
+    if len(p) == 1 and k in ("parkp", "hop", "hopc", "fwait"):
         return (k, None, False, [], None)
     if len(p) == 2 and k in ("startc", "spawn", "wakep") and p[1].isdigit() and len(p[1]) <= 6:
         # startc = async::operator(); spawn = coroutine entered through coro_queue::initial_awaiter (nobody holds a future)
@@ -202,6 +202,8 @@ class TraceChecker:
             self.returned = True
         elif kind == "hopc":
             self.must_continue = (c, "co_await thread_pool::current() outside a pool thread is a no-op")
+        elif kind == "fwait":
+            self.must_continue = (c, "it only blocked in force_wait(): a blocking wait is not a suspension")
         elif kind == "pause":
             self.pause_snap[c] = set(self.qseq)
             self.enqueue([c])
@@ -339,6 +341,15 @@ def check_trace(case, out):
             if act is None:
                 continue
             t.main_act(act)
+            if act[0] == "fwait":
+                for e in evs:
+                    if JOB.match(e):
+                        break
+                    m = EV.match(e)
+                    if m:
+                        t.flag("preempt", "coroutine %s ran inside a blocking force_wait() of ordinary code (queue installed by an "
+                               "enclosing block): queued coroutines must wait for the end of the block" % m.group(1))
+                        break
         elif w[0] == "end":
             while t.blocks:
                 t.main_act(("leave", None, False, [], None))
@@ -417,7 +428,7 @@ class ExecSuite(Suite):
             elif r < 0.61:
                 acts.append("swap")
             elif r < 0.645:
-                acts.append(rng.choice(["hop", "hop", "hopc"]))
+                acts.append(rng.choice(["hop", "hop", "hopc", "fwait", "fwait"]))
             elif r < 0.665:
                 acts.append("wakep:%d" % rng.choice(others))
             elif r < 0.74 and spawn_pool:
@@ -472,6 +483,8 @@ class ExecSuite(Suite):
             mode = "d" if kw == "gather" else rng.choice("dddrxp")
             if rng.random() < 0.12:
                 return "wakep:%d" % rng.randrange(n)
+            if rng.random() < 0.03:
+                return "fwait"
             return "%s:%s:%s" % (kw, mode, ",".join(map(str, ids)))
 
         if shape in ("block", "mixed") and rng.random() < 0.8:
